@@ -16,9 +16,9 @@ open HitenModel RE Gen.C01
 
 /-- the two sqrt arguments the kernels use are the squared distances to the primaries -/
 theorem sq0_is_r1_sq (ρ : ℕ → ℝ) : eval ρ sq0 = (ρ 0 + ρ 6) ^ 2 + ρ 1 ^ 2 + ρ 2 ^ 2 := by
-  simp only [sq0, eval]
+  simp only [sq0, eval] <;> ring
 theorem sq1_is_r2_sq (ρ : ℕ → ℝ) : eval ρ sq1 = (ρ 0 - 1 + ρ 6) ^ 2 + ρ 1 ^ 2 + ρ 2 ^ 2 := by
-  simp only [sq1, eval]; ring
+  simp only [sq1, eval] <;> ring
 theorem sqrtArgs_complete : sqrtArgs = [sq0, sq1] := rfl
 
 /-- the vector field exposed through the `_RTBPRHS` closure is the kernel with `mu` passed unchanged -/
@@ -46,12 +46,17 @@ theorem jac_eq_D (ρ : ℕ → ℝ) (h0 : 0 < eval ρ sq0) (h1 : 0 < eval ρ sq1
 
 /-- the traced vector field is well defined (no zero denominators, positive sqrt arguments) away from the primaries -/
 theorem accel_WD (ρ : ℕ → ℝ) (h0 : 0 < eval ρ sq0) (h1 : 0 < eval ρ sq1) (i : ℕ) (hi : i < 6) : WD ρ (accel i) := by
-  have hr0 : Real.sqrt (eval ρ sq0) ^ 3 ≠ 0 := pow_ne_zero _ (Real.sqrt_pos.mpr h0).ne'
-  have hr1 : Real.sqrt (eval ρ sq1) ^ 3 ≠ 0 := pow_ne_zero _ (Real.sqrt_pos.mpr h1).ne'
-  have w0 : WD ρ sq0 := by simp [sq0, WD]
-  have w1 : WD ρ sq1 := by simp [sq1, WD]
-  interval_cases i <;> simp only [accel, WD, eval, and_self, true_and, and_true] <;>
-    simp only [w0, w1, h0, h1, hr0, hr1, ne_eq, not_false_eq_true, and_self]
+  -- by the verified syntactic checker (`wdOK_sound`): whatever shape the traced term has, every denominator is a product / power /
+  -- quotient of square roots of the two squared distances and every sqrt argument is one of them
+  have hpos : ∀ e ∈ [sq0, sq1], 0 < eval ρ e := by
+    intro e he
+    rcases List.mem_cons.mp he with rfl | he
+    · exact h0
+    · rcases List.mem_cons.mp he with rfl | he
+      · exact h1
+      · cases he
+  refine wdOK_sound ρ [sq0, sq1] hpos (accel i) ?_
+  interval_cases i <;> decide +kernel
 
 /-- **jac_is_derivative**: for every mass parameter and every state away from the primaries the exposed
 Jacobian entry (i,j) is the partial derivative of component i of the vector field with respect to state
@@ -67,9 +72,9 @@ theorem jac_is_derivative (ρ : ℕ → ℝ) (h0 : 0 < eval ρ sq0) (h1 : 0 < ev
 def stateOf (ρ : ℕ → ℝ) : ℕ → ℝ := fun k => if k < 6 then ρ (36 + k) else ρ 42
 
 theorem vsq0_is_sq0 (ρ : ℕ → ℝ) : eval ρ vq0 = eval (stateOf ρ) sq0 := by
-  simp [vq0, sq0, eval, stateOf]
+  simp [vq0, sq0, eval, stateOf] <;> ring
 theorem vsq1_is_sq1 (ρ : ℕ → ℝ) : eval ρ vq1 = eval (stateOf ρ) sq1 := by
-  simp [vq1, sq1, eval, stateOf]
+  simp [vq1, sq1, eval, stateOf] <;> ring
 theorem vSqrtArgs_complete : vSqrtArgs = [vq0, vq1] := rfl
 
 /-- **vareq_state_block**: components 36..41 of the variational right-hand side are the vector field of the
@@ -142,7 +147,7 @@ theorem jacobiInner_first_integral (ρ : ℕ → ℝ) (h0 : 0 < eval ρ sq0) (h1
 
 /-- `energy_to_jacobi` is `E ↦ -2E`, so the Jacobi constant is a first integral as well -/
 theorem jacobi_is_minus_two_energy (ρ : ℕ → ℝ) : eval ρ energyToJacobi = -2 * ρ 0 := by
-  simp only [energyToJacobi, eval]; norm_num
+  simp only [energyToJacobi, eval] <;> norm_num
 
 /-- **two_jacobi_formulas_agree**: the inner formula equals `-2·energy - mu(1-mu)` identically, so the
 manifold energy filter and the reported Jacobi constant measure the same integral. -/
@@ -157,12 +162,14 @@ theorem two_jacobi_formulas_agree (ρ : ℕ → ℝ) (h0 : 0 < eval ρ sq0) (h1 
   ring
 
 theorem energy_WD (ρ : ℕ → ℝ) (h0 : 0 < eval ρ sq0) (h1 : 0 < eval ρ sq1) : WD ρ energy := by
-  have hr0 : Real.sqrt (eval ρ sq0) ≠ 0 := (Real.sqrt_pos.mpr h0).ne'
-  have hr1 : Real.sqrt (eval ρ sq1) ≠ 0 := (Real.sqrt_pos.mpr h1).ne'
-  have w0 : WD ρ sq0 := by simp [sq0, WD]
-  have w1 : WD ρ sq1 := by simp [sq1, WD]
-  simp only [energy, WD, eval, and_self, true_and, and_true]
-  simp only [w0, w1, h0, h1, hr0, hr1, ne_eq, not_false_eq_true, and_self]
+  have hpos : ∀ e ∈ [sq0, sq1], 0 < eval ρ e := by
+    intro e he
+    rcases List.mem_cons.mp he with rfl | he
+    · exact h0
+    · rcases List.mem_cons.mp he with rfl | he
+      · exact h1
+      · cases he
+  exact wdOK_sound ρ [sq0, sq1] hpos energy (by decide +kernel)
 
 /-- **energy_constant_along_solutions**: along every differentiable curve that solves the traced equations
 of motion (with constant `mu`) and stays away from the primaries, the reported energy is constant — planar
